@@ -7,10 +7,12 @@ engine with a forced mtime change per edit; the outputs are compared with the ex
 The _PythonHelper allow-list is driven directly and through templates.
 """
 import atexit
+import codecs
 import itertools
 import os
 import shutil
 import tempfile
+import time
 
 import common
 from common import Check, sx
@@ -27,6 +29,30 @@ def tmp():
         _T = os.path.realpath(tempfile.mkdtemp(prefix="verif-c17-"))
         atexit.register(shutil.rmtree, _T, True)
     return _T
+
+
+# ----------------------------------------------------------------------------- "edit during load"
+# A codec registered by the harness and selected through the engine's public `encoding` option: when it is asked
+# to decode the bytes of the armed file it first performs the armed edit, i.e. the edit lands after the bytes
+# were read and before the loader returns.
+_HOOK = {"expect": None, "action": None, "fired": False}
+
+
+def _hook_decode(data, errors="strict"):
+    data = bytes(data)
+    if _HOOK["action"] is not None and not _HOOK["fired"] and data == _HOOK["expect"]:
+        _HOOK["fired"] = True
+        _HOOK["action"]()
+    return codecs.utf_8_decode(data, errors, True)
+
+
+def _hook_search(name):
+    if name in ("verif-c17", "verif_c17"):
+        return codecs.CodecInfo(name="verif-c17", encode=codecs.utf_8_encode, decode=_hook_decode)
+    return None
+
+
+codecs.register(_hook_search)
 
 
 # ----------------------------------------------------------------------------- template contents
@@ -77,33 +103,81 @@ SETUP = [("sub/main.txt", main_content(0)), ("inc.txt", inc_content("I", 0)), ("
 
 # history alphabet: (code, description)
 ALPHA = ["Em", "Ei", "Ej", "El", "Ek", "Di", "Dj", "R", "Rr"]
+# adversarial operations (added for the seeded changes C17-s2 / C17-s3):
+#   Lm Lj Li  render sub/main.txt while an edit of sub/main.txt / sub/inc.txt / inc.txt is armed to happen DURING the
+#             load of that very file (after its bytes were read); only possible with the engine's own loader
+#   Sm Sj Si Sk Sl  same-size rewrite IN PLACE of sub/main, sub/inc, inc, sub/lib, lib with the mtime restored (ctime moves)
+#   Nm Nj     same-size rewrite through a NEW inode (os.replace) with the mtime restored
+ADV = ["Lm", "Lj", "Li", "Sm", "Sj", "Si", "Sk", "Sl", "Nm", "Nj"]
+OP_PATH = {"m": "sub/main.txt", "j": "sub/inc.txt", "i": "inc.txt", "k": "sub/lib.txt", "l": "lib.txt"}
 
 
-def expand(history):
-    """history over ALPHA -> list of concrete steps ('edit', relpath, content|None) / ('render', relname, ctx)"""
-    steps = [("edit", p, c) for p, c in SETUP]
+def same_size_variant(content):
+    """toggle the case of the first letter of the first text item and of the export value"""
+    items, export = content
+    items = list(items)
+    for n, (kind, t) in enumerate(items):
+        if kind == 0 and t:
+            items[n] = (0, t[0].swapcase() + t[1:])
+            break
+    return (items, export[:1].swapcase() + export[1:])
+
+
+def interpret(c, engine):
+    """runs the history; `engine` is an object with edit(rel, content, mode) and render(rel, ctx, hook) -> (result, fired);
+    returns (results, steps for the model)"""
+    steps = []
+    results = []
+    cur = {}
+
+    def edit(rel, content, mode="normal"):
+        engine.edit(rel, content, mode)
+        steps.append(("edit", rel, content))
+        if content is None:
+            cur.pop(rel, None)
+        else:
+            cur[rel] = content
+
+    def render(rel, ctx, hook=None):
+        res, fired = engine.render(rel, ctx, None if hook is None else (hook[0], cur.get(hook[0]), hook[1]))
+        steps.append(("render", rel, ctx))
+        results.append(res)
+        if fired:                                   # the armed edit took place after the file's bytes had been read
+            steps.append(("edit", hook[0], hook[1]))
+            cur[hook[0]] = hook[1]
+
+    for p, ct in SETUP:
+        edit(p, ct)
     ed = itertools.count(1)
-    for h in history:
+    for h in c["history"]:
         k = next(ed)
         if h == "Em":
-            steps.append(("edit", "sub/main.txt", main_content(k)))
+            edit("sub/main.txt", main_content(k))
         elif h == "Ei":
-            steps.append(("edit", "inc.txt", inc_content("I", k)))
+            edit("inc.txt", inc_content("I", k))
         elif h == "Ej":
-            steps.append(("edit", "sub/inc.txt", inc_content("J", k)))
+            edit("sub/inc.txt", inc_content("J", k))
         elif h == "El":
-            steps.append(("edit", "lib.txt", lib_content("L", k)))
+            edit("lib.txt", lib_content("L", k))
         elif h == "Ek":
-            steps.append(("edit", "sub/lib.txt", lib_content("K", k)))
+            edit("sub/lib.txt", lib_content("K", k))
         elif h == "Di":
-            steps.append(("edit", "inc.txt", None))
+            edit("inc.txt", None)
         elif h == "Dj":
-            steps.append(("edit", "sub/inc.txt", None))
+            edit("sub/inc.txt", None)
         elif h == "R":
-            steps.append(("render", "sub/main.txt", [("a", "ca%d" % k), ("b", "cb%d" % k)]))
+            render("sub/main.txt", [("a", "ca%d" % k), ("b", "cb%d" % k)])
         elif h == "Rr":
-            steps.append(("render", "main.txt", [("b", "rb%d" % k), ("z", "cz")]))
-    return steps
+            render("main.txt", [("b", "rb%d" % k), ("z", "cz")])
+        elif h[0] == "L":
+            rel = OP_PATH[h[1]]
+            new = main_content(k) if h[1] == "m" else inc_content("J" if h[1] == "j" else "I", k)
+            render("sub/main.txt", [("a", "la%d" % k), ("b", "lb%d" % k)], hook=(rel, new))
+        elif h[0] in "SN":
+            rel = OP_PATH[h[1]]
+            if rel in cur:
+                edit(rel, same_size_variant(cur[rel]), "inplace" if h[0] == "S" else "newinode")
+    return results, steps
 
 
 # ----------------------------------------------------------------------------- real engine
@@ -116,42 +190,73 @@ def write_file(path, text):
     os.utime(path, ns=(t, t))           # every edit changes mtime (and with it the stat version)
 
 
+class RealEngine:
+    def __init__(self, c, T):
+        self.c, self.T = c, T
+        cfg = {"cache_enabled": c["cache"], "relative_includes": c["rel"]}
+        if c["root"]:
+            cfg["root_dir"] = T
+        else:
+            cfg["encoding"] = "verif-c17"          # utf-8 plus the load hook (public configuration option)
+        if c["base"]:
+            cfg["context"] = dict(c["base"])
+        self.eng = J.get_instance(cfg)
+
+    def edit(self, rel, content, mode):
+        p = os.path.join(self.T, rel)
+        if content is None:
+            if os.path.exists(p):
+                os.unlink(p)
+        elif mode == "normal":
+            write_file(p, src(content))
+        else:
+            st = os.stat(p)
+            data = src(content).encode("utf-8")
+            assert len(data) == st.st_size, "same-size variant changed the size"
+            time.sleep(0.012)                       # a coarse ctime clock must have moved since the last change
+            if mode == "inplace":
+                with open(p, "r+b") as f:
+                    f.write(data)
+            else:
+                with open(p + ".new", "wb") as f:
+                    f.write(data)
+                os.replace(p + ".new", p)
+            os.utime(p, ns=(st.st_atime_ns, st.st_mtime_ns))      # mtime as before; the kernel still moves ctime
+
+    def render(self, rel, ctx, hook):
+        c = self.c
+        name = rel if (c["root"] or c["relname"]) else os.path.join(self.T, rel)
+        if hook is not None and hook[1] is not None and not c["root"]:
+            target, old, new = hook
+            _HOOK.update(expect=src(old).encode("utf-8"), fired=False,
+                         action=lambda: write_file(os.path.join(self.T, target), src(new)))
+        try:
+            try:
+                res = (0, self.eng.render(name, dict(ctx)).encode("utf-8"))
+            except FileNotFoundError:
+                res = (1,)
+            except TypeError:
+                res = (2,)
+            except RecursionError:
+                res = (3,)
+            except Exception as ex:          # noqa
+                res = (0, ("!exception:" + type(ex).__name__).encode())
+        finally:
+            fired = _HOOK["fired"]
+            _HOOK.update(expect=None, action=None, fired=False)
+        return res, fired
+
+
 def run_engine(c):
     T = tmp()
     for name in os.listdir(T):
         shutil.rmtree(os.path.join(T, name), ignore_errors=True) if os.path.isdir(os.path.join(T, name)) \
             else os.unlink(os.path.join(T, name))
-    cfg = {"cache_enabled": c["cache"], "relative_includes": c["rel"]}
-    if c["root"]:
-        cfg["root_dir"] = T
-    if c["base"]:
-        cfg["context"] = dict(c["base"])
     old = os.getcwd()
     os.chdir(T)
     try:
-        eng = J.get_instance(cfg)
-        out = []
-        for st in expand(c["history"]):
-            if st[0] == "edit":
-                p = os.path.join(T, st[1])
-                if st[2] is None:
-                    if os.path.exists(p):
-                        os.unlink(p)
-                else:
-                    write_file(p, src(st[2]))
-            else:
-                name = st[1] if (c["root"] or c["relname"]) else os.path.join(T, st[1])
-                try:
-                    out.append((0, eng.render(name, dict(st[2])).encode("utf-8")))
-                except FileNotFoundError:
-                    out.append((1,))
-                except TypeError:
-                    out.append((2,))
-                except RecursionError:
-                    out.append((3,))
-                except Exception as ex:          # noqa
-                    out.append((0, ("!exception:" + type(ex).__name__).encode()))
-        return out
+        results, steps = interpret(c, RealEngine(c, T))
+        return {"results": results, "steps": steps}
     finally:
         os.chdir(old)
 
@@ -228,6 +333,21 @@ class C17(Check):
                     yield {"kind": 0, "root": root, "cache": cache, "rel": rel,
                            "base": [("a", "CFG"), ("z", "Z")] if n % 3 == 0 else [],
                            "relname": (n % 5 == 0), "history": list(h)}
+        # adversarial edits (own loader; with root_dir jinja2's FileSystemLoader is outside the stat-version assumption,
+        # see extra_checks): edit during the load of a file, same-size rewrites with the mtime restored
+        pairs = [(a, b) for a in ADV for b in ADV]
+        for (root, cache, rel) in ((False, True, True), (False, True, False), (False, False, True)):
+            hists = []
+            for a in ADV:
+                hists += [["R", a, "R"], [a, "R", "R"], ["R", "Rr", a, "R", "Rr"], ["R", a, "Em", "R"], ["R", "Ej", a, "R"]]
+            for (a, b) in (rng.sample(pairs, 24) if tier == "quick" else pairs):
+                hists.append(["R", a, b, "R"])
+                if tier != "quick":
+                    hists.append(["R", a, "R", b, "R"])
+            for h in hists:
+                n += 1
+                yield {"kind": 0, "root": root, "cache": cache, "rel": rel,
+                       "base": [("a", "CFG"), ("z", "Z")] if n % 3 == 0 else [], "relname": (n % 5 == 0), "history": h}
         # allow-lists
         qs = MODULES + list(reversed(MODULES))
         for a in ENTRIES:
@@ -255,12 +375,30 @@ class C17(Check):
             return run_engine(c)
         return run_helper(c)
 
+    def extra_checks(self, tier, rng, report):
+        """informational: root_dir + cache_enabled uses jinja2.FileSystemLoader, whose up-to-date test is the mtime
+        alone; an edit that restores the mtime is outside the property's assumption ("each edit changes the stat version
+        and the mtime") - what the unchanged code does then is recorded, not judged"""
+        stale = 0
+        total = 0
+        cases = [{"kind": 0, "root": True, "cache": True, "rel": True, "base": [], "relname": False, "history": h}
+                 for h in (["R", "Sm", "R"], ["R", "Sj", "R"], ["R", "Sk", "R"], ["R", "Nm", "R"], ["R", "Nj", "R"])]
+        obs = [self.impl(c) for c in cases]
+        outs = common.run_model(self.ident, [self.line(c, o) for c, o in zip(cases, obs)])
+        for c, o, out in zip(cases, obs, outs):
+            r = common.unsx(out)
+            total += 1
+            if r[2]:
+                stale += 1
+        report["extra"]["fsl_mtime_restored_cases"] = total
+        report["extra"]["fsl_mtime_restored_stale"] = stale
+
     def line(self, c, obs):
         if c["kind"] == 0:
             def P(rel):
                 return (ROOT + "/" + rel).encode()
             steps = []
-            for st in expand(c["history"]):
+            for st in obs["steps"]:
                 if st[0] == "edit":
                     ct = [] if st[2] is None else [[[[k, s.encode()] for k, s in st[2][0]], st[2][1].encode()]]
                     steps.append([0, P(st[1]), ct])
@@ -276,7 +414,7 @@ class C17(Check):
     def canon(self, obs):
         if isinstance(obs, tuple):
             return [1, [int(b) for b in obs[0]], obs[1]]
-        return [0, [list(r) for r in obs]]
+        return [0, [list(r) for r in obs["results"]]]
 
     def nontrivial(self, c, obs):
         if c["kind"] == 0:
@@ -292,7 +430,8 @@ class C17(Check):
                     "config_context": c["base"], "relative_template_name": c["relname"], "history": c["history"],
                     "legend": "setup writes 8 files; Em/Ei/Ej/El/Ek edit sub/main, inc, sub/inc, lib, sub/lib; Di/Dj delete "
                               "inc, sub/inc; R renders sub/main.txt, Rr renders main.txt",
-                    "steps": [list(s[:2]) + ([src(s[2])] if s[0] == "edit" and s[2] else [s[2]]) for s in expand(c["history"])][8:]}
+                    "adversarial_ops": "Lm/Lj/Li render sub/main.txt while an edit of sub/main, sub/inc, inc happens during the load of "
+                                       "that file; Sm/Sj/Si/Sk/Sl same-size in-place rewrite with mtime restored; Nm/Nj same via new inode"}
         return {"allow": c["allow"], "queries": c["queries"][:60], "n_queries": len(c["queries"]),
                 "as_str": c.get("as_str", False), "via_template": c.get("via_template", False)}
 
